@@ -1200,7 +1200,12 @@ static int parse_single_cert(psPool_t *pool, const unsigned char **pp,
     rc = getCertSignatureHashLen(cert, &cert->sigHashLen);
     if (rc < 0)
     {
-        return rc;
+        /* Leave through "out" so that *pp is moved past this certificate:
+           psX509ParseCert() would otherwise parse the same bytes again,
+           forever, when CERT_ALLOW_BUNDLE_PARTIAL_PARSE is set. */
+        cert->parseStatus = PS_X509_UNSUPPORTED_SIG_ALG;
+        func_rc = rc;
+        goto out;
     }
 
     /* Most algorithms and APIs use pre-hashing before signature
@@ -1214,7 +1219,8 @@ static int parse_single_cert(psPool_t *pool, const unsigned char **pp,
         cert->tbsCertStart = psMalloc(pool, certLen);
         if (cert->tbsCertStart == NULL)
         {
-            return PS_MEM_FAIL;
+            func_rc = PS_MEM_FAIL;
+            goto out;
         }
         Memcpy(cert->tbsCertStart, tbsCertStart, certLen);
         cert->tbsCertLen = certLen;
